@@ -259,6 +259,12 @@ def attr_low(x):
     return x
 
 
+def attr_camel(x):
+    """attributes in mixed case with a lower-case initial: not capitalised, hence not inherited"""
+    _log("attr_camel")
+    return x
+
+
 # ---- failing ----------------------------------------------------------------------
 
 def boom(x):
@@ -347,7 +353,8 @@ FIRST = [one, lit, num, flt, mk, firstcat]
 DATA = [add, mulf, flagged, pair, none_default, optint, optfb, unann, cat, ident, withctx, sub, subin, nocache, ctxmut, boom, needs,
         push, setkey, dfcol, deepmut, after1, after2, after3]
 STATE = [getvar, tag, mutvar]
-ATTRS = {"attr_up": dict(ABC="abc"), "attr_low": dict(abc="x"), "vol": dict(volatile=True)}
+ATTRS = {"attr_up": dict(ABC="abc"), "attr_low": dict(abc="x"), "vol": dict(volatile=True),
+         "attr_camel": dict(contextMenu="m", sourceURL="u", Xy="kept")}
 
 
 _basic = []
@@ -394,7 +401,7 @@ def table():
         t["root"][f.__name__] = (f, "first", {})
     for f in DATA:
         t["root"][f.__name__] = (f, "data", {})
-    for f in (attr_up, attr_low, vol):
+    for f in (attr_up, attr_low, attr_camel, vol):
         t["root"][f.__name__] = (f, "data", dict(ATTRS[f.__name__]))
     for f in STATE:
         t["root"][f.__name__] = (f, "state", {})
